@@ -40,6 +40,11 @@ func (t Translator) ToArrai(data interface{}) (rel.Value, error) {
 		return rel.NewNumber(v), nil
 	case int:
 		return rel.NewNumber(float64(v)), nil
+	case int64:
+		return rel.NewNumber(float64(v)), nil
+	case uint64:
+		// yaml.v3 yields uint64 for integers above the int range.
+		return rel.NewNumber(float64(v)), nil
 	case bool:
 		value := rel.NewBool(v)
 		if t.strict {
